@@ -13,7 +13,7 @@ ID = 'C16'
 LEVEL = 'exploration'
 RULE = ('a real tree is built per run: base/{top.txt, root/{f.txt, .hidden, "we ird.txt", "a\\\\b.txt", sub/{g.txt, deep/h.txt}}, root2/decoy.txt, '
         'rootx/secret.txt, root_backup/secret.txt, other/secret.txt, case-variant twins Root/ and ROOT/, a second site site2/ with the same relative layout, a mirror tree backup/<absolute path of the root>/ beside the root and one inside it}. case = (root spelling: absolute, with trailing separator(s), relative to the '
-        'working directory (which alternates between base and base/site2 from request to request), with a dot-dot detour, the nested root root/sub; file name = prefix in {"", "/", "\\\\", "//", absolute base, absolute '
+        'working directory (which alternates between base and base/site2 from request to request), with a dot-dot detour, the nested root root/sub, and directories literally called ~, ~/static, $HOME, ~user in the working directory while HOME points at a decoy tree; file name = prefix in {"", "/", "\\\\", "//", absolute base, absolute '
         'root, "/etc/"} + 1-6 segments from {file and directory names of the tree, ".", "..", "", "...", sibling directory names, "passwd", NUL '
         'segment} joined by separators from {"/", "\\\\", "//", "/./", "\\\\\\\\"} + optional trailing separator), served by static_file from a handler '
         'of the default application. Oracle: independent string normalisation of the location (POSIX reading and backslash-as-separator reading); '
@@ -29,12 +29,16 @@ FILES = {
     'root_backup/secret.txt': b'BACKUP-DECOY', 'other/secret.txt': b'OTHER-DECOY', 'root2/f.txt': b'ROOT2-F-DECOY', 'secret.txt': b'BASE-SECRET-DECOY',
     'Root/f.txt': b'CASE-VARIANT-DECOY 1', 'ROOT/secret.txt': b'CASE-VARIANT-DECOY 2', 'root/SUB/g.txt': b'inside, other case', 'root/sub/Deep/h.txt': b'inside, other case 2',
     # a second site with the same relative layout: the working directory alternates between the two
+    # directories whose names are spelled like shell expansions; the HOME of the process points at a decoy directory during the check
+    '~/f.txt': b'tilde f', '~/sub/g.txt': b'tilde g', '$HOME/f.txt': b'dollar f', '~nobody-verif/f.txt': b'tilde user f',
+    'home/f.txt': b'HOME-DECOY f', 'home/sub/g.txt': b'HOME-DECOY g', 'home/secret.txt': b'HOME-DECOY secret', 'home/static/f.txt': b'HOME-DECOY static',
+    '~/static/f.txt': b'tilde static f',
     'site2/root/f.txt': b'site2 f', 'site2/root/sub/g.txt': b'site2 g', 'site2/top.txt': b'SITE2-TOP-DECOY', 'site2/root2/decoy.txt': b'SITE2-ROOT2-DECOY',
 }
 SEGS = ['Root', 'ROOT', 'SUB', 'Deep', 'F.TXT', 'f.txt', 'sub', 'g.txt', 'deep', 'h.txt', '.hidden', 'we ird.txt', 'a\\b.txt', '.', '..', '..', '..', '', '...', 'root', 'root2', 'rootx', 'root_backup',
         'other', 'decoy.txt', 'secret.txt', 'top.txt', 'passwd', 'etc', 'a', 'b.txt', '\0', 'nofile']
 SEPS = ['/', '/', '/', '\\', '\\', '//', '/./', '\\\\', '/\\', '\\/']
-ROOTS = ['abs', 'abs/', 'abs//', 'rel', './rel', 'rel/', 'detour', 'nested', 'nested/', 'abs/.', 'rel\\']
+ROOTS = ['abs', 'abs/', 'abs//', 'rel', './rel', 'rel/', 'detour', 'nested', 'nested/', 'abs/.', 'rel\\', '~', '~/', './~', '~/static', '$HOME', '~nobody-verif']
 PREFIXES = ['', '', '', '/', '\\', '//', '../', '..\\', '<base>/', '<root>/', '/etc/', './', '<base>', '/../', '../backup<root>/', '../../backup<root>/', 'mirror<root>/', '../backup<base>/']
 
 _STATE = {}
@@ -58,6 +62,8 @@ def tree():
                 f.write(b'MIRROR-F-DECOY' if mirror == 'backup' else b'mirror f inside the root')
         _STATE['base'] = base
         _STATE['cwd'] = os.getcwd()
+        _STATE['home'] = os.environ.get('HOME')
+        os.environ['HOME'] = base + '/home'
         os.chdir(base)
         mimetypes.init()           # reads /etc/mime.types etc. once, outside the observed window
     return _STATE['base']
@@ -66,12 +72,18 @@ def tree():
 def cleanup():
     if 'base' in _STATE:
         os.chdir(_STATE['cwd'])
+        if _STATE.get('home') is not None:
+            os.environ['HOME'] = _STATE['home']
         shutil.rmtree(_STATE.pop('base'), ignore_errors=True)
 
 
 def root_of(spec, base, cwd=None):
     """(root argument given to static_file, true absolute root directory); relative spellings are relative to the working directory"""
     R = base + '/root'
+    if spec in ('~', '~/', './~', '~/static', '$HOME', '~nobody-verif'):
+        here = cwd or base           # relative spellings: a directory literally called '~' (...) in the working directory
+        return {'~': ('~', here + '/~'), '~/': ('~/', here + '/~'), './~': ('./~', here + '/~'), '~/static': ('~/static', here + '/~/static'), '$HOME': ('$HOME', here + '/$HOME'),
+                '~nobody-verif': ('~nobody-verif', here + '/~nobody-verif')}[spec]
     if cwd and spec in ('rel', './rel', 'rel/', 'nested/'):
         R2 = cwd + '/root'
         return {'rel': ('root', R2), './rel': ('./root', R2), 'rel/': ('root/', R2), 'nested/': ('root/sub/', R2 + '/sub')}[spec]
